@@ -28,6 +28,7 @@ CONFIGS = [
     {'kind': 'file', 'serialized': True, 'protocol': None},
     {'kind': 'file', 'serialized': True, 'protocol': 'json'},
     {'kind': 'sql', 'memory': False},
+    {'kind': 'dir', 'serialized': True, 'protocol': None, 'permissions': 0o755},     # explicit permissions= option
     {'kind': 'file', 'serialized': False, 'protocol': None},     # source-text encodings (import-based readers)
     {'kind': 'dir', 'serialized': False, 'protocol': None},
 ]
